@@ -1610,6 +1610,14 @@ class Exec:
         return BoundMethod(base, n.attr)
 
     def ex_Dict(self, n, st, spec):
+        if n.keys and n.keys[0] is None and all(k is not None for k in n.keys[1:]):
+            # {**d, k1: v1, ...}: a copy of the dict d with the entries set
+            base = self.eval(n.values[0], st, spec)
+            if isinstance(base, MDict):
+                d = MDict(base.kty, base.comps, base.keys, list(base.arrs))
+                for k, v in zip(n.keys[1:], n.values[1:]):
+                    d.setitem(self, st, self.eval(k, st, spec), self.eval(v, st, spec))
+                return d
         if any(k is None for k in n.keys):
             raise OutOfSubset('dict unpacking')
         return PyDict([(self.eval(k, st, spec), self.eval(v, st, spec)) for k, v in zip(n.keys, n.values)])
